@@ -36,6 +36,7 @@
 #include <xalanc/XalanDOM/XalanDOMException.hpp>
 #include <xalanc/XPath/XObjectFactory.hpp>
 #include <xalanc/XPath/XObject.hpp>
+#include <xalanc/XPath/Function.hpp>
 #include <xalanc/XalanTransformer/XalanTransformer.hpp>
 #include <xalanc/XalanTransformer/XalanCAPI.h>
 #include <xalanc/XalanTransformer/XalanDocumentBuilder.hpp>
@@ -234,6 +235,36 @@ static void cmdParam(const Msg& q, Msg& r) {
         s->t->setStylesheetParam(xs(name), (XalanNode*)i->second->getDocument());
     }
     else if (kind == "clear") s->t->clearStylesheetParams();
+    else r["error"] = "bad kind";
+}
+
+// extfn: install / uninstall an external function in the local space of one transformer.  The function returns its tag and the string
+// value of its first argument, so a transformation shows which installation (if any) it saw.
+class VerifFunction : public Function {
+public:
+    VerifFunction(const std::string& tag) : m_tag(tag) {}
+    virtual XObjectPtr execute(XPathExecutionContext& executionContext, XalanNode*, const XObjectArgVectorType& args, const Locator*) const {
+        XPathExecutionContext::GetAndReleaseCachedString g(executionContext);
+        XalanDOMString& res = g.get();
+        res.assign(m_tag.c_str());
+        res.append(1, XalanDOMChar(':'));
+        if (args.size() > 0) res.append(args[0]->str(executionContext));
+        return executionContext.getXObjectFactory().createString(res);
+    }
+    using Function::execute;
+    virtual VerifFunction* clone(MemoryManager& theManager) const { return XalanCopyConstruct(theManager, *this); }
+protected:
+    const XalanDOMString& getError(XalanDOMString& theResult) const { theResult.assign("verif function"); return theResult; }
+private:
+    std::string m_tag;
+};
+
+static void cmdExtfn(const Msg& q, Msg& r) {
+    TState* s = findT(q, r); if (!s) return;
+    const std::string& kind = get(q, "kind");
+    const XalanDOMString ns("urn:verif-ext"), name(get(q, "name").c_str());
+    if (kind == "install") s->t->installExternalFunction(ns, name, VerifFunction(get(q, "tag")));
+    else if (kind == "uninstall") s->t->uninstallExternalFunction(ns, name);
     else r["error"] = "bad kind";
 }
 
@@ -564,6 +595,7 @@ int main(int argc, char** argv) {
             else if (cmd == "csdel") cmdCsdel(q, r);
             else if (cmd == "psdel") cmdPsdel(q, r);
             else if (cmd == "param") cmdParam(q, r);
+            else if (cmd == "extfn") cmdExtfn(q, r);
             else if (cmd == "setopt") cmdSetopt(q, r);
             else if (cmd == "snapshot") cmdSnapshot(q, r);
             else if (cmd == "transform") cmdTransform(q, r);
